@@ -5,45 +5,58 @@
    associativity, neutrality and two-sided inverse on coefficient vectors.
    Stated for every threshold 0 < eps (the library's eps is one instance). *)
 From Coq Require Import Reals List Lra.
-From Manif Require Import Scalar Mat Group RInst Generic LieSpec SO2 SE2 SO3 SE3 Rn SE2Proofs SO3Proofs RnProofs.
+From Manif Require Import Scalar Mat Group RInst Generic LieSpec SO2 SE2 SO3 SE3 SE23 SGal3 Rn SE2Proofs SO3Proofs SE23Proofs RnProofs.
 Import ListNotations.
 Local Open Scope R_scope.
 
-Theorem C01_SO2 eps : 0 < eps -> GroupLaws (SO2 RS eps) so2_valid hom2.
+Theorem C01_SO2 eps : 0 < eps -> GroupLaws (SO2 RS eps) so2_valid hom2 (fun _ => hom2).
 Proof. intros H. exact (laws_of_core _ (SO2_core eps H)). Qed.
 Print Assumptions C01_SO2.
 
-Theorem C01_SE2 eps : 0 < eps -> GroupLaws (SE2 RS eps) se2_valid hom2.
+Theorem C01_SE2 eps : 0 < eps -> GroupLaws (SE2 RS eps) se2_valid hom2 (fun _ => hom2).
 Proof. intros H. exact (laws_of_core _ (SE2_core eps H)). Qed.
 Print Assumptions C01_SE2.
 
-Theorem C01_SO3 eps : 0 < eps -> GroupLaws (SO3 RS eps) so3_valid hom3.
+Theorem C01_SO3 eps : 0 < eps -> GroupLaws (SO3 RS eps) so3_valid hom3 (fun _ => hom3).
 Proof. intros H. exact (laws_of_core _ (SO3_core eps H)). Qed.
 Print Assumptions C01_SO3.
 
-Theorem C01_SE3 eps : 0 < eps -> GroupLaws (SE3 RS eps) se3_valid hom3.
+Theorem C01_SE3 eps : 0 < eps -> GroupLaws (SE3 RS eps) se3_valid hom3 (fun _ => hom3).
 Proof. intros H. exact (laws_of_core _ (SE3_core eps H)). Qed.
 Print Assumptions C01_SE3.
 
-Theorem C01_R1 : GroupLaws (Rn RS 1) (rn_valid 1) homn. Proof. exact (laws_of_core _ R1_core). Qed.
-Theorem C01_R2 : GroupLaws (Rn RS 2) (rn_valid 2) homn. Proof. exact (laws_of_core _ R2_core). Qed.
-Theorem C01_R3 : GroupLaws (Rn RS 3) (rn_valid 3) homn. Proof. exact (laws_of_core _ R3_core). Qed.
-Theorem C01_R4 : GroupLaws (Rn RS 4) (rn_valid 4) homn. Proof. exact (laws_of_core _ R4_core). Qed.
-Theorem C01_R5 : GroupLaws (Rn RS 5) (rn_valid 5) homn. Proof. exact (laws_of_core _ R5_core). Qed.
-Theorem C01_R6 : GroupLaws (Rn RS 6) (rn_valid 6) homn. Proof. exact (laws_of_core _ R6_core). Qed.
-Theorem C01_R7 : GroupLaws (Rn RS 7) (rn_valid 7) homn. Proof. exact (laws_of_core _ R7_core). Qed.
-Theorem C01_R8 : GroupLaws (Rn RS 8) (rn_valid 8) homn. Proof. exact (laws_of_core _ R8_core). Qed.
-Theorem C01_R9 : GroupLaws (Rn RS 9) (rn_valid 9) homn. Proof. exact (laws_of_core _ R9_core). Qed.
+Theorem C01_SE23 eps : 0 < eps -> GroupLaws (SE23 RS eps) se23_valid hom10 (fun _ => hom10).
+Proof. intros H. exact (laws_of_core _ (SE23_core eps H)). Qed.
+Print Assumptions C01_SE23.
+
+(* SGal(3): a point p is the event (p; 0; 1); its image is (act X p; t(X); 1) *)
+Theorem C01_SGal3 eps : 0 < eps -> GroupLaws (SGal3 RS eps) sg_valid hom01 hom_t1.
+Proof. intros H. exact (laws_of_core _ (SGal3_core eps H)). Qed.
+Print Assumptions C01_SGal3.
+
+Theorem C01_R1 : GroupLaws (Rn RS 1) (rn_valid 1) homn (fun _ => homn). Proof. exact (laws_of_core _ R1_core). Qed.
+Theorem C01_R2 : GroupLaws (Rn RS 2) (rn_valid 2) homn (fun _ => homn). Proof. exact (laws_of_core _ R2_core). Qed.
+Theorem C01_R3 : GroupLaws (Rn RS 3) (rn_valid 3) homn (fun _ => homn). Proof. exact (laws_of_core _ R3_core). Qed.
+Theorem C01_R4 : GroupLaws (Rn RS 4) (rn_valid 4) homn (fun _ => homn). Proof. exact (laws_of_core _ R4_core). Qed.
+Theorem C01_R5 : GroupLaws (Rn RS 5) (rn_valid 5) homn (fun _ => homn). Proof. exact (laws_of_core _ R5_core). Qed.
+Theorem C01_R6 : GroupLaws (Rn RS 6) (rn_valid 6) homn (fun _ => homn). Proof. exact (laws_of_core _ R6_core). Qed.
+Theorem C01_R7 : GroupLaws (Rn RS 7) (rn_valid 7) homn (fun _ => homn). Proof. exact (laws_of_core _ R7_core). Qed.
+Theorem C01_R8 : GroupLaws (Rn RS 8) (rn_valid 8) homn (fun _ => homn). Proof. exact (laws_of_core _ R8_core). Qed.
+Theorem C01_R9 : GroupLaws (Rn RS 9) (rn_valid 9) homn (fun _ => homn). Proof. exact (laws_of_core _ R9_core). Qed.
 Print Assumptions C01_R9.
 
 (* non-vacuity: concrete non-trivial valid elements exist in every group *)
 Example C01_nonvacuous :
   so2_valid [3/5; 4/5] /\ se2_valid [7; -2; 3/5; 4/5] /\
-  so3_valid [2/7; 3/7; 6/7; 0] /\ se3_valid [1; 2; 3; -1/2; 1/2; -1/2; -1/2] /\ rn_valid 3 [1; 2; 3].
+  so3_valid [2/7; 3/7; 6/7; 0] /\ se3_valid [1; 2; 3; -1/2; 1/2; -1/2; -1/2] /\ rn_valid 3 [1; 2; 3] /\
+  se23_valid [1; 2; 3; -1/2; 1/2; -1/2; -1/2; 4; 5; 6] /\ sg_valid [1; 2; 3; 2/7; 3/7; 6/7; 0; 4; 5; 6; 9].
 Proof.
   repeat split.
   - exists (3/5), (4/5); split; [reflexivity|lra].
   - exists 7, (-2), (3/5), (4/5); split; [reflexivity|lra].
   - exists (2/7), (3/7), (6/7), 0; split; [reflexivity|unfold n4; lra].
   - exists 1, 2, 3, (-1/2), (1/2), (-1/2), (-1/2); split; [reflexivity|unfold n4; lra].
+  - reflexivity.
+  - exists 1, 2, 3, (-1/2), (1/2), (-1/2), (-1/2), 4, 5, 6; split; [reflexivity|unfold n4; lra].
+  - exists 1, 2, 3, (2/7), (3/7), (6/7), 0, 4, 5, 6, 9; split; [reflexivity|unfold n4; lra].
 Qed.
